@@ -237,6 +237,8 @@ M("tp21_rcv_timeout_pops_by_key", ["C08"], "D60 reverted (J1939-21): the timed-o
   ("j1939/j1939_21.py", "                        if self._rcv_buffer.get(bufid) is buf:\n", "                        if True:\n"))
 M("tp22_rcv_timeout_pops_by_key", ["C08"], "D60 reverted (J1939-22): the timed-out receive session is removed by key",
   ("j1939/j1939_22.py", "                        if self._rcv_buffer.get(bufid) is buf:\n", "                        if True:\n"))
+M("dm14_own_query_busy_answer_stale_reason", ["C19"], "D61 reverted: the busy answer during an own query carries the last respond() reason",
+  ("j1939/memory_access.py", "                    self.server.error = 0x0\n                    self.server.set_busy(True)\n                    self.server.parse_dm14(priority, pgn, sa, timestamp, data)", "                    self.server.set_busy(True)\n                    self.server.parse_dm14(priority, pgn, sa, timestamp, data)"))
 M("dm1_notify_rereads_attributes", ["C16"], "D49 reverted: _notify_subscribers re-reads the attributes for every subscriber",
   ("j1939/diagnostic_messages.py", "            callback(sa, lamp_status.copy(), [dict(dtc_dic) for dtc_dic in dtc_dic_list], timestamp)",
    "            callback(sa, self._lamp_status.copy(), [dict(dtc_dic) for dtc_dic in self._dtc_dic_list], timestamp)"))
